@@ -115,6 +115,16 @@ def families(prop, tier):
         fams.append(dict(name='splitplan-gdict', mode='plans', plans=plans,
                          cfg=dict(backend='gdict', gate_store=True, announce=True, split=True, nmsgs=1, nrcpt=2, backoff=[None],
                                   outcomes=['ok'])))
+    if prop in ('C03', 'C13', 'C01'):
+        # the window in which a finished message is still in storage (its removal has not completed): an announcement of
+        # its id - or a stale timetable entry - must not start another attempt, nor a second bounce
+        wplans = [['enq', 'write', 'relay:P2', 'announce', 'get', 'relay:P2', 'write', 'write', 'remove', 'remove'],
+                  ['enq', 'write', 'relay:P2', 'write', 'announce', 'get', 'relay:P2', 'write', 'remove', 'remove'],
+                  ['enq', 'write', 'relay:ok', 'announce', 'get', 'relay:ok', 'remove', 'remove'],
+                  ['enq', 'write', 'relay:P2', 'write', 'relay:ok', 'announce', 'get', 'relay:P2', 'write', 'remove', 'remove']]
+        fams.append(dict(name='removewindow-gdict', mode='plans', plans=wplans,
+                         cfg=dict(backend='gdict', gate_store=True, announce=True, nmsgs=1, nrcpt=1, backoff=[None],
+                                  outcomes=['ok', 'P2'])))
     if prop in ('C12',):
         plan = ['enq', 'write', 'relay:T1', 'increment_attempts', 'set_timestamp', 'announce', 'get', 'relay:T1',
                 'increment_attempts', 'set_timestamp', 'get', 'relay:ok']
@@ -152,6 +162,22 @@ def families(prop, tier):
         plans = [['enq', 'enq', 'relay:T1', 'relay:T1', 'flush', 'announce_new', 'get', 'get', 'get', 'relay:ok', 'relay:ok', 'relay:ok'],
                  ['enq', 'enq', 'relay:T1', 'relay:T1', 'flush', 'get', 'announce_new', 'get', 'get', 'relay:ok', 'relay:ok', 'relay:ok'],
                  ['enq', 'enq', 'relay:T1', 'relay:T1', 'adv', 'flush', 'announce_new', 'get', 'relay:T1', 'get', 'get', 'relay:ok', 'relay:ok']]
+        # ... and what fails and is re-queued while flush() waits keeps the time its backoff chose: flush() is about what
+        # waited when it was called
+        rplans = [['enq', 'enq', 'relay:T1', 'relay:T1', 'flush', 'get', 'relay:T1', 'get', 'relay:T1', 'get', 'relay:ok', 'get', 'relay:ok'],
+                  ['enq', 'enq', 'relay:T1', 'relay:T1', 'flush', 'get', 'relay:T1', 'get', 'get', 'relay:T1', 'relay:ok', 'get', 'relay:ok'],
+                  ['enq', 'enq', 'relay:T1', 'relay:T1', 'flush', 'get', 'relay:T1', 'get', 'relay:ok', 'adv', 'get', 'relay:ok']]
+        fams.append(dict(name='flushrequeue-gdict', mode='plans', plans=rplans,
+                         cfg=dict(backend='gdict', gate_store=True, gate_ops=['get'], store_pool=1, flush=1,
+                                  nmsgs=2, nrcpt=1, backoff=[5, 5, 5, None], outcomes=['ok', 'T1'])))
+        # the same with a storage that does not yield and a relay that fails at once: every cycle fetch - attempt - failure -
+        # re-queue completes while flush() waits for a pool slot for the next message
+        for sp in (1, 2):
+            for nm in (3, 4):
+                fams.append(dict(name='flushloop-dict', mode='plans',
+                                 plans=[['enq'] * nm + ['flush'], ['enq'] * nm + ['adv', 'flush'], ['enq'] * (nm - 1) + ['flush', 'enq', 'adv']],
+                                 cfg=dict(backend='dict', gate_store=False, nmsgs=nm, nrcpt=1, backoff=[5, 5, 5, 5, None], store_pool=sp, flush=1,
+                                          fast_relay=['T1'] * 14, outcomes=['ok'])))
         for sp in (1, 2):
             fams.append(dict(name='flushpool-gdict', mode='plans', plans=plans,
                              cfg=dict(backend='gdict', gate_store=True, gate_ops=['get'], announce=True, announce_new=True, store_pool=sp, flush=1,
